@@ -419,8 +419,8 @@ def determinism_scenario(files, src, rng, layout="default", procs=2):
 # --------------------------------------------------------------------------------------
 # soups (C01): arbitrary UTF-8 texts
 # --------------------------------------------------------------------------------------
-HAZARD = ["é", "中", "\U0001F600", "́", " ", "　", " ", "\u0085", "\r", "\r\n", "\t", "\"", "/", "*",
-          "​", "٣", "﻿", "\x0b", "\x00"]
+HAZARD = ["\u00e9", "\u4e2d", "\U0001F600", "\u0301", "\u00a0", "\u3000", "\u2028", "\u0085", "\r", "\r\n", "\t", "\"", "/", "*",
+          "\u200b", "\u0663", "\ufeff", "\x0b", "\x00"]
 FRAGS = ["package", "import", "interface", "parcelable", "enum", "oneway", "const", "void", "String", "List", "Map",
          "in", "out", "inout", "int", "byte", "true", "false", "CharSequence", "a", "Foo", "p.q", "x1", "_", "@A", "@B(a=1)",
          ";", ",", "{", "}", "(", ")", "[", "]", "<", ">", "=", ".", "-", "1", "99999999999", "1.5f", "-.5", "\"s\"", "\"",
@@ -434,7 +434,7 @@ def soup_text(rng, kind, base_docs):
         return "".join(rng.choice(alpha) for _ in range(n))
     if kind == "token":
         n = rng.choice([1, 3, 8, 20, 60, 200])
-        seps = [" ", "", "\n", "\t", "\r\n", " /* c */ ", "//x\n", " ", "　"]
+        seps = [" ", "", "\n", "\t", "\r\n", " /* c */ ", "//x\n", "\u00a0", "\u3000"]
         return "".join(rng.choice(FRAGS) + rng.choice(seps) for _ in range(n))
     if kind == "mutate":
         t = rng.choice(base_docs)
